@@ -388,7 +388,8 @@ func driveLimiter(t *testing.T, prop string, kinds []int, nCases, nOps int, h li
 						ok := l.S.AddPartition(key, pct)
 						tr.Op(4, []int64{key, FBits(pct)}, append([]int64{B(ok)}, l.State()...))
 						hist = append(hist, []int64{4, key, FBits(pct)})
-					case op < 23 && kind >= 3 && len(l.S.Live) > 1:
+					case op < 23 && kind >= 3 && (len(l.S.Live) > 1 || (kind == 4 && len(l.S.Live) == 1 && r.Bool(30))):
+						// (the predicate strategy may lose its last partition: updates keep arriving from listeners still outstanding)
 						key := l.S.Live[r.Intn(len(l.S.Live))].key
 						n, ok := l.S.RemovePartition(key)
 						tr.Op(5, []int64{key}, append([]int64{n, B(ok)}, l.State()...))
@@ -1050,4 +1051,11 @@ func TestC05Constructors(t *testing.T) {
 			}
 		}
 	}
+}
+
+// the strategies on their own: what SetLimit hands them is what they enforce and what the shares are computed from, whatever the partition
+// set at that moment (none included)
+func TestC05Bare(t *testing.T) {
+	bareOnly = map[string]bool{"limit-not-set": true, "share": true, "limit-gauge": true}
+	driveBare(t, "C05bare", []int{1, 2, 3, 4}, Scale(150, 2000), Scale(60, 120))
 }
